@@ -711,7 +711,20 @@ pub fn run(ctx: &mut Ctx) {
                             } else {
                                 Ok(*v) == base.res
                             };
-                            if complete {
+                            if complete && o.faults_hit > 0 {
+                                // the value / image is complete, but an operation the call issued on the stream FAILED and the call
+                                // says Ok all the same: "the call returns an error" is what the property demands
+                                *hist.entry(format!("{kind}:ok-FAULT-SWALLOWED")).or_insert(0) += 1;
+                                let api = sc.name.split('/').next().unwrap_or(&sc.name).to_string();
+                                let codec = sc.name.split('/').nth(1).unwrap_or("-").to_string();
+                                ctx.violation(
+                                    &api,
+                                    "fault-swallowed",
+                                    &format!("success reported although a stream operation of the call failed ({codec}, failing {kind})"),
+                                    &format!("{}: the stream fails from operation {k} of {n} (a {kind}); the call issued it, it failed, and the call returned Ok", sc.name),
+                                    mat,
+                                );
+                            } else if complete {
                                 *hist.entry(format!("{kind}:ok-complete")).or_insert(0) += 1;
                                 ctx.count("outcome.ok_complete");
                             } else {
